@@ -34,6 +34,8 @@ def gen_particles(r, D, H, kind, n):
 
     def rnd():
         return tuple(r.randrange(lim) for _ in range(D))
+    if lim ** D > 65536 and kind in ("lattice", "dense"):
+        kind = "clustered"           # enumerating the grid of a deep level is out of reach
     if kind == "uniform":
         return [rnd() for _ in range(n)]
     if kind == "clustered":
@@ -94,6 +96,11 @@ def pick_height(r, D, big=False):
     if D == 3:
         return r.choice([1, 2, 3, 4, 5, 6] if big else [1, 2, 3, 3, 4, 4, 5])
     return r.choice([1, 2, 3, 4] if big else [1, 2, 3, 3, 4])
+
+
+def pick_height_deep(r, D):
+    """heights whose leaf indices need more than 31 bits (few particles: the trees are deep and sparse)"""
+    return r.choice({1: [33, 36, 41], 2: [17, 18, 21], 3: [12, 13, 14]}.get(D, [9, 10, 11]))
 
 
 def case_header(name, D, H, periodic, parts):
